@@ -15,7 +15,7 @@ import os
 import numpy as np
 
 PROP = 'C05'
-TARGETS = ['T1', 'T1b', 'T1c', 'T4', 'T11', 'T11b', 'T11c', 'T11d', 'T11e', 'T11f', 'T12']
+TARGETS = ['T1', 'T1b', 'T1c', 'T4', 'T11', 'T11b', 'T11c', 'T11d', 'T11e', 'T11f', 'T11g', 'T12']
 LEAN_MODULES = ['HdVerif.Props.C05']
 MODEL_MODULES = ['HdVerif.Model.FrameAccess', 'HdVerif.Model.EncapBytes', 'HdVerif.Model.FramePaths']
 NAMESPACE = 'HdVerif.C05'
@@ -292,6 +292,30 @@ def _check_image(ctx, d, ds, fr, reqs, pending):
                             impl = ('err', _err_kind(val))
                     reqs.append((fn, args))
                     pending.append((case, impl))
+        # ---- the reader behind a lazily read image: open for every read, back in its rest state after every call (T11g)
+        if name in ('lazy', 'lazy-path', 'lazy-bytes') and getattr(im, '_file_reader', None) is not None:
+            rd_ = im._file_reader
+            rr = ctx.rng('reader-calls', d['idx'])
+            calls, ok_all, nreads = [], True, 0
+            for _ in range(rr.randint(2, 5)):
+                kq = rr.choice([0, 0, 1, n, -1, -n])
+                calls.append(kq)
+                if kq == 0:
+                    stc, _v = _fetch(im.get_stored_frame, rr.randint(1, n))
+                    nreads += 1
+                elif kq > 0:
+                    stc, _v = _fetch(im.get_stored_frames, [rr.randint(1, n) for _ in range(kq)])
+                    nreads += kq
+                else:
+                    stc, _v = _fetch(lambda: im.get_frames([rr.randint(1, n) for _ in range(-kq)], dtype=np.int64, **_NO_TRANSFORMS))
+                    nreads += -kq
+                ok_all = ok_all and stc == 'ok'
+                if rr.random() < 0.3:
+                    _fetch(im.get_stored_frame, n + 1)         # a refused call in between
+            reqs.append(('readerCalls', {'should_close': bool(rd_._should_close), 'calls': calls}))
+            pending.append(({'image': d, 'path': name, 'calls': calls, 'what': 'reader state after a sequence of calls (T11g)', 'layer': 'L2'},
+                            ('ok', {'depth': int(rd_._enter_depth), 'open': rd_._fp is not None, 'reads_ok': ok_all, 'reads': nreads})))
+            ctx.case(path=name + '/reader-calls', reader_owns_file=bool(rd_._should_close))
         # ---- spellings that are NOT integers (float, numeric string, None, numpy float): refused on every method, never
         # truncated or parsed (a frame number 1.5 is not frame 1)
         for bad, sp in ((1.0, 'float'), (1.5, 'float-fraction'), ('1', 'str'), (None, 'none'), (np.float64(1.0), 'numpy-float')):
